@@ -110,6 +110,15 @@ theorem binary_data_accepted (nf : Nat) (hnf : 0 < nf) (fields : List Nat) (eps 
     TasteData.fileOK fields rows (TasteData.scanAll (fileOf nf eps) fuel 0) = .good :=
   TasteData.file_accepted nf hnf fields eps rows fuel hfuel hg hlen hx
 
+/-- ... and a whole level: when every binary file the level header names is there and passes against the rows of its boxes
+    sorted by offset, `taste_binary_data` passes the level (`TasteData.levelOK`, the definition the driver runs) -/
+theorem binary_data_level_accepted (fields : List Nat) (entries : List Taste.Entry) (rows : List (List (Extrema.V × Extrema.V)))
+    (files : List (String × Bytes))
+    (h : ∀ n ∈ Taste.dedup (entries.map (·.file)), ∃ raw, files.lookup n = some raw ∧
+      TasteData.fileOK fields (TasteData.rowsOf entries rows n) (TasteData.scanAll raw (raw.length + 1) 0) = .good) :
+    TasteData.levelOK fields entries rows files = .good :=
+  TasteData.levelOK_accepted fields entries rows files h
+
 /-- non-vacuity: two FABs of one component (values 1.0, -3.0 | +inf) with their true rows pass; a wrong maximum does not -/
 example :
     let one : Bytes := [0,0,0,0,0,0,0xF0,0x3F]
